@@ -445,7 +445,9 @@ def generate(repo):
     byidx = [r"global_index\s*=\s*(?:static_cast<std::size_t>\(\s*)?args\.num\s*-\s*1",
              r"c\.index\s*==\s*global_index",
              r"==\s*well_data\.connections\.end\(\)\s*\)\s*return\s+zero;"]
+    unit_l = [r"\(\s*\(?\s*phase\s*==\s*rt::polymer\s*\)?\s*\|\|\s*\(?\s*phase\s*==\s*rt::brine\s*\)?\s*\)\s*\?\s*measure::mass_rate\s*:\s*rate_unit<\s*phase\s*>\(\)"]
     need(r"template<\s*rt\s+phase\s*,\s*bool\s+injection\s*=\s*true\s*>\s*inline\s+quantity\s+crate\s*\(\s*const\s+fn_args&\s+args\s*\)\s*\{", "crate<>",
+         unit_l + [r"const\s+quantity\s+zero\s*=\s*\{\s*0\s*,\s*unit\s*\}"] +
          head + typed + byidx + [r"auto\s+v\s*=\s*completion->rates\.get\(\s*phase\s*,\s*0\.0\s*\)\s*\*\s*eff_fac;",
                                  r"if\s*\(\s*!\s*injection\s*\)\s*v\s*\*=\s*-1;",
                                  r"if\s*\(\s*phase\s*==\s*rt::polymer\s*\|\|\s*phase\s*==\s*rt::brine\s*\)\s*return\s*\{\s*v\s*,\s*measure::mass_rate\s*\}",
@@ -457,7 +459,6 @@ def generate(repo):
     need(r"inline\s+quantity\s+cpr\s*\(\s*const\s+fn_args&\s+args\s*\)\s*\{", "cpr",
          [head[0][:-1].replace("return\\s+zero", "return\\s+zero") , head[1], head[2]] + byidx[:2] +
          [r"return\s*\{\s*connection->pressure\s*,\s*measure::pressure\s*\}"])
-    unit_l = [r"\(\s*\(?\s*phase\s*==\s*rt::polymer\s*\)?\s*\|\|\s*\(?\s*phase\s*==\s*rt::brine\s*\)?\s*\)\s*\?\s*measure::mass_rate\s*:\s*rate_unit<\s*phase\s*>\(\)"]
     loop_l = [r"conn_ptr->global_index\(\)", r"cdata\.index\s*==\s*global_index",
               r"if\s*\(\s*conn_data\s*!=\s*well_data\.connections\.end\(\)\s*\)\s*\{\s*sum\s*\+=\s*conn_data->rates\.get\(\s*phase\s*,\s*0\.0\s*\)\s*\*\s*eff_fac;",
               r"if\s*\(\s*!\s*injection\s*\)\s*\{\s*sum\s*\*=\s*-1;"]
@@ -477,6 +478,8 @@ def generate(repo):
          [r"segment_quantity\(\s*args\s*,\s*measure::pressure", r"return\s+segment\.pressures\[\s*ix\s*\]"])
     need(r"template<\s*rt\s+phase\s*,\s*bool\s+injection\s*>\s*quantity\s+region_rate\s*\(\s*const\s+fn_args&\s+args\s*\)\s*\{", "region_rate<>",
          [r"args\.regionCache\.connections\(\s*std::get<std::string>\(\s*\*args\.extra_data\s*\)\s*,\s*args\.num\s*\)",
+          r"xwPos\s*=\s*args\.wells\.find\(\s*pair\.first\s*\)\s*;\s*if\s*\(\s*\(\s*xwPos\s*!=\s*args\.wells\.end\(\)\s*\)\s*&&\s*"
+          r"\(\s*xwPos->second\.dynamicStatus\s*==\s*Opm::Well::Status::SHUT\s*\)\s*\)\s*\{\s*continue;",
           r"double\s+eff_fac\s*=\s*efac\(\s*args\.eff_factors\s*,\s*pair\.first\s*\)",
           r"double\s+Rate\s*=\s*args\.wells\.get\(\s*pair\.first\s*,\s*pair\.second\s*,\s*phase\s*\)\s*\*\s*eff_fac;",
           r"if\s*\(\s*\(\s*Rate\s*>\s*0\s*\)\s*!=\s*injection\s*\)\s*\{\s*Rate\s*=\s*0;", r"sum\s*\+=\s*Rate;",
